@@ -193,7 +193,7 @@ Definition rank (n : nt) : nat :=
 (* productions that consume at least one token whenever they succeed *)
 Definition strict (n : nt) : bool :=
   match n with
-  | NLv1Tail _ _ | NLv2Tail _ _ | NArithTail _ | NMulDivTail _ | NMemberTail _ | NChain _
+  | NLv1Tail _ _ | NLv2Tail _ _ | NLv3Tail _ _ | NArithTail _ | NMulDivTail _ | NMemberTail _ | NChain _
   | NVDBlock _ _ | NBranch _ _ _ _ _ _ | NBlock _ _ | NExec _ _ _ _ _ | NClassItems _ _ _ _ | NProgram _ _ _ _ => false
   | _ => true
   end.
@@ -263,7 +263,8 @@ Proof.
   - (* NLv1Tail *) g_tc. destruct o; [g_ih; g_last|g_ret].
   - (* NLv2 *) g_ih. g_last.
   - (* NLv2Tail *) g_tc. destruct o; [g_ih; g_last|g_ret].
-  - (* NLv3 *) g_ih. g_tc. destruct o; [g_ih; g_ret|g_ret].
+  - (* NLv3 *) g_ih. g_last.
+  - (* NLv3Tail *) g_tc. destruct o; [g_ih; g_last|g_ret].
   - (* NLv4 *) g_ih. destruct mp; (g_tc; destruct o; [|g_ret]; destruct (assignable r); [g_ih; g_ret|g_fail]).
   - (* NArith *) g_ih. g_last.
   - (* NArithTail *) g_tc. destruct o; [g_ih; g_last|g_ret].
